@@ -109,6 +109,7 @@ type Frame struct {
 	selfRun bool     // frame is the inlined target of a contract self-call
 	isInit  bool
 	stopAt  *ssa.BasicBlock
+	conBindings []Val
 }
 
 func (f *Frame) clone() *Frame {
@@ -163,6 +164,7 @@ type State struct {
 	ghost    map[string]string // named ghost scalars (terms)
 	dirty    map[string]bool // heap arrays written at a location that existed before this path (frame)
 	pendingZero []string
+	closures    []Val // closures created on this path (most recent last)
 	lit      map[string]map[string]Val // heap array -> literal index -> stored value (fresh objects)
 }
 
@@ -204,6 +206,7 @@ func (s *State) clone() *State {
 		t.lit[k] = m
 	}
 	t.pendingZero = append([]string(nil), s.pendingZero...)
+	t.closures = s.closures[:len(s.closures):len(s.closures)]
 	t.dirty = make(map[string]bool, len(s.dirty))
 	for k, v := range s.dirty {
 		t.dirty[k] = v
@@ -378,6 +381,11 @@ func (x *Run) mapZeroAxiom(valConst, domConst, valName string) {
 	}
 	x.d.raw("c."+domConst, fmt.Sprintf("(declare-const %s %s)", domConst, ds))
 	ks := mapKeySortOfArr(vs)
+	lnConst := sanitize(strings.Replace(domConst, "Md.", "Ml.", 1))
+	if _, ok := x.arrSorts["Ml."+valName[3:]]; ok {
+		x.d.raw("c."+lnConst, fmt.Sprintf("(declare-const %s (Array Int Int))", lnConst))
+		x.d.raw("ax.len."+domConst, fmt.Sprintf("(assert (forall ((m Int) (k %s)) (! (=> (select (select %s m) k) (>= (select %s m) 1)) :pattern ((select (select %s m) k)))))", ks, domConst, lnConst, domConst))
+	}
 	x.d.raw("ax.nilmap."+domConst, fmt.Sprintf("(assert (forall ((k %s)) (! (not (select (select %s 0) k)) :pattern ((select (select %s 0) k)))))", ks, domConst, domConst))
 	x.d.raw("ax.zero."+valConst, fmt.Sprintf("(assert (forall ((m Int) (k %s)) (! (=> (not (select (select %s m) k)) (= (select (select %s m) k) %s)) :pattern ((select (select %s m) k)))))", ks, domConst, valConst, zero, valConst))
 }
